@@ -472,6 +472,12 @@ func (s *StubSub) Name() string            { return s.name }
 
 func (s *StubSub) Close() error {
 	b := s.bus
+	// as the real eventbus: drain concurrently so that an emitter blocked on this
+	// sink (it holds the bus read lock while sending) can finish
+	go func() {
+		for range s.out {
+		}
+	}()
 	b.mu.Lock()
 	if s.closed {
 		b.mu.Unlock()
@@ -510,12 +516,12 @@ func (e *StubEmitter) Emit(evt interface{}) error {
 	}
 	b := e.bus
 	b.mu.RLock()
+	defer b.mu.RUnlock()
 	b.Emitted[e.key]++
 	sinks := append([]*StubSub{}, b.subs[e.key]...)
 	sinks = append(sinks, b.subs[TypeKey(event.WildcardSubscription)]...)
-	b.mu.RUnlock()
 	for _, s := range sinks {
-		s.out <- evt // blocking per-sink FIFO, as the real eventbus
+		s.out <- evt // blocking per-sink FIFO under the bus read lock, as the real eventbus
 	}
 	return nil
 }
